@@ -440,15 +440,34 @@ pub fn op_jsonfile(a: &[&str]) -> String {
         "plain" => "key.json".into(),
         "spaces" => "my key (copy) .json".into(),
         "nonutf8" => std::ffi::OsString::from_vec(b"key-\xff\xfe.json".to_vec()),
+        "pipe" => "unused".into(),
         "long" => format!("{}.json", "k".repeat(200)).into(),
         "missing" => "does-not-exist.json".into(),
         "dir" => ".".into(),
         _ => return "bad-op".into(),
     };
-    let path = dir.join(name);
-    if *kind != "missing" && *kind != "dir" && std::fs::write(&path, &content).is_err() { let _ = std::fs::remove_dir_all(&dir); return "bad-op".into() }
+    let mut path = dir.join(name);
+    // a path that is not a regular file: the read end of a pipe holding the content (process substitution, stdin)
+    let mut pipe_fd: Option<i32> = None;
+    if *kind == "pipe" {
+        extern "C" { fn pipe(fds: *mut i32) -> i32; fn write(fd: i32, buf: *const u8, n: usize) -> isize; fn close(fd: i32) -> i32; }
+        if content.len() > 60_000 { let _ = std::fs::remove_dir_all(&dir); return "bad-op".into() }
+        let mut fds = [0i32; 2];
+        if unsafe { pipe(fds.as_mut_ptr()) } != 0 { let _ = std::fs::remove_dir_all(&dir); return "bad-op".into() }
+        let mut off = 0;
+        while off < content.len() {
+            let n = unsafe { write(fds[1], content.as_ptr().add(off), content.len() - off) };
+            if n <= 0 { break; }
+            off += n as usize;
+        }
+        unsafe { close(fds[1]); }
+        path = std::path::PathBuf::from(format!("/proc/self/fd/{}", fds[0]));
+        pipe_fd = Some(fds[0]);
+    }
+    if *kind != "missing" && *kind != "dir" && *kind != "pipe" && std::fs::write(&path, &content).is_err() { let _ = std::fs::remove_dir_all(&dir); return "bad-op".into() }
     use solana_signer::EncodableKey;
     let via_file = match *codec {
+        "keypair" if *kind == "pipe" => ElGamalKeypair::read_json_file(&path).ok().map(|k| <[u8; 64]>::from(&k).to_vec()),
         "keypair" => {
             let a = ElGamalKeypair::read_json_file(&path).ok().map(|k| <[u8; 64]>::from(&k).to_vec());
             let b = <ElGamalKeypair as EncodableKey>::read_from_file(&path).ok().map(|k| <[u8; 64]>::from(&k).to_vec());
@@ -460,6 +479,7 @@ pub fn op_jsonfile(a: &[&str]) -> String {
         "aekey" => <AeKey as EncodableKey>::read_from_file(&path).ok().map(|k| <[u8; 16]>::from(k).to_vec()),
         _ => { let _ = std::fs::remove_dir_all(&dir); return "bad-op".into() }
     };
+    if let Some(fd) = pipe_fd { extern "C" { fn close(fd: i32) -> i32; } unsafe { close(fd); } }
     let out = match &via_file { Some(b) => okhex(b), None => "err".to_string() };
     // writing the decoded key back to a file (same kind of name) and reading it again gives the same key
     if let Some(key_bytes) = &via_file {
@@ -882,6 +902,29 @@ pub fn op_dlog(a: &[&str]) -> String {
         results.push(direct);
     }
     if results[0] != results[1] { return format!("variant-mismatch:{:?}:{:?}", results[0], results[1]) }
+    // the answer does not depend on how many CPUs the calling thread may use: the same decode from a thread restricted
+    // to 3 CPUs, and to 1 CPU (affinity mask; worker threads inherit it)
+    if let (Some(_), Ok(n)) = (results[0], threads.parse::<usize>()) {
+        if n > 1 && n <= 64 {
+            extern "C" { fn sched_setaffinity(pid: i32, cpusetsize: usize, mask: *const u64) -> i32; }
+            for mask in [0b111u64, 0b1, 0b11111] {
+                let batch_s = batch.to_string();
+                let r = std::thread::spawn(move || {
+                    let m = [mask, 0u64, 0, 0, 0, 0, 0, 0, 0, 0, 0, 0, 0, 0, 0, 0];
+                    if unsafe { sched_setaffinity(0, std::mem::size_of_val(&m), m.as_ptr()) } != 0 { return None; }
+                    let mut d = DiscreteLog::new_for_g(p);
+                    if d.num_threads(NonZeroUsize::new(n).unwrap()).is_err() { return None; }
+                    if batch_s != "-" { if let Some(b) = batch_s.parse::<usize>().ok().and_then(NonZeroUsize::new) { let _ = d.set_compression_batch_size(b); } }
+                    Some(d.decode_u32())
+                }).join();
+                match r {
+                    Ok(Some(x)) => if x != results[0] { return format!("variant-mismatch:cpu-mask-{:b}:{:?}:{:?}", mask, results[0], x) },
+                    Ok(None) => {}
+                    Err(_) => return "P".into(),
+                }
+            }
+        }
+    }
     // decoders do not disturb each other: the same decode while another caller keeps decoding (with threads) in the
     // same process gives the same answer. (Only for in-range targets with a threaded configuration: cheap enough.)
     if let (Some(_), Ok(n)) = (results[0], threads.parse::<usize>()) {
